@@ -65,6 +65,10 @@ StdIgs(k) ==
 StdVtecHeader == 83
 StdVtecLayer == 16
 StdVtecCoef == 16
+\* number of cosine / sine coefficients of a layer of degree N and order M (M <= N), IGS SSR v1.00
+VtecCos(N, M) == (((N + 1) * (N + 2)) \div 2) - (((N - M) * (N - M + 1)) \div 2)
+VtecSin(N, M) == VtecCos(N, M) - (N + 1)
+VtecBits(Lyr, N, M) == StdVtecHeader + Lyr * (StdVtecLayer + StdVtecCoef * (VtecCos(N, M) + VtecSin(N, M)))
 
 \* MSM1..7: 169 + Nsat*Nsig + Nsat*S(level) + Ncell*C(level)
 MsmHeader == 169
